@@ -146,6 +146,78 @@ def stepped(res, sp, b):
     shutil.rmtree(work, True)
 
 
+def second_channel(res, sp0):
+    """a reader is constructed on the top-level directory (holding a complete first channel) while the
+    writer of ANOTHER channel is held before each file-system operation of its set-up and first file"""
+    import digital_rf
+    work = common.scratch_dir("c09ch2-")
+    top = os.path.join(work, "top")
+    outc, rc, err = P.run_writer(sp0, top)
+    if rc != 0 or any(not o["ok"] for o in outc):
+        res.disagree("first channel did not record", sp0["name"], None, outc)
+        return
+    allw = P.written(sp0)
+    sp1 = P.spec([[0, 120]], name="second-channel-set-up")
+    fo, fi = os.path.join(work, "out.fifo"), os.path.join(work, "in.fifo")
+    os.mkfifo(fo)
+    os.mkfifo(fi)
+    proc = P.run_writer(sp1, top, step=(fo, fi), popen=True, chan="ch1")
+    rd = open(fo, "r")
+    wr = open(fi, "w")
+    long_lived = None
+    n = 0
+    try:
+        while True:
+            ln = rd.readline()
+            if not ln:
+                break
+            n = int(ln)
+            inp = {"recording": sp0["name"], "spec": sp0, "second_channel_spec": sp1, "second_channel_before_op": n,
+                   "second_channel_files": [f for f in P.tree_files(top) if f.startswith("ch1/")], "label": "second-channel"}
+            for kind in ("fresh", "long-lived"):
+                try:
+                    if kind == "fresh" or long_lived is None:
+                        r = digital_rf.DigitalRFReader(top)
+                        if kind == "long-lived":
+                            long_lived = r
+                    else:
+                        r = long_lived
+                    chans = r.get_channels()
+                    _r, seen = P.reader_pass(top, sp0, reader=r)
+                except Exception as e:  # noqa
+                    res.violation("reader-fails-during-other-channel-setup",
+                                  "a reader on the top-level directory fails while the writer of another channel is "
+                                  "setting that channel up (%s reader)" % kind, inp,
+                                  "channel ch0 readable, no failure", repr(e)[:200])
+                    if kind == "long-lived":
+                        long_lived = None
+                    continue
+                if P.CH not in chans or not (seen == allw):
+                    res.violation("reader-misses-complete-channel",
+                                  "a complete channel is not fully readable while another channel is being set up",
+                                  inp, allw.brief(), {"channels": chans, "seen": seen.brief()})
+                ch1_props = os.path.exists(os.path.join(top, "ch1", "drf_properties.h5"))
+                # (a long-lived reader keeps the channel list of its construction: only the fresh one is compared)
+                if kind == "fresh" and ("ch1" in chans) != ch1_props:
+                    res.violation("channel-listed-without-properties",
+                                  "the channel list does not agree with the presence of drf_properties.h5", inp,
+                                  {"ch1_listed": ch1_props}, {"channels": chans})
+            res.case(("second-channel", sp0["name"], n), nontrivial=True)
+            res.count("second_channel_steps")
+            wr.write("x")
+            wr.flush()
+    finally:
+        try:
+            wr.close()
+        except Exception:  # noqa
+            pass
+        rd.close()
+        proc.communicate(timeout=60)
+    if n < 8:
+        res.disagree("second channel writer issued too few operations to cover its set-up", sp1["name"], ">= 8", n)
+    shutil.rmtree(work, True)
+
+
 def free_running(res, seconds):
     """exploration: a writer running freely (many small writes, short sleeps) polled by a reader"""
     import digital_rf
@@ -199,8 +271,10 @@ def run(res):
     res.rule = ("one case = one point between two file-system operations of a single-stepped real writer, at which a "
                 "long-lived and a fresh DigitalRFReader query the live tree (get_bounds + read of the whole span); all "
                 "distinct and non-trivial; each result is compared with raw h5py of the final-named files, the model's "
-                "state after the same prefix, the written values and the previous step; thorough adds recordings and a "
-                "free-running writer polled by a reader (exploration)")
+                "state after the same prefix, the written values and the previous step; a second channel's writer is held "
+                "before every operation of its set-up while fresh and long-lived readers are constructed on / query the "
+                "top-level directory holding a complete first channel; thorough adds recordings; a free-running writer "
+                "polled by a reader is exploration")
     for sp in recordings(res.tier):
         b = P.baseline(res, sp)
         if b.ops is None:
@@ -209,6 +283,7 @@ def run(res):
         res.sample({"recording": sp["name"], "ops": b.n,
                     "props_variant": {0: "Direct", 1: "Staged", None: "none"}[b.vp]})
         shutil.rmtree(b.work, True)
+    second_channel(res, recordings(res.tier)[0])
     free_running(res, 4 if res.tier == "quick" else 20)
     res.assumptions += [
         "a reader probe (os.access + h5py.File + dataset reads of one file) is atomic with respect to the writer's "
@@ -224,6 +299,23 @@ def replay(res, rp):
     common.use_impl()
     inp = rp["input"]
     sp = inp.get("spec")
+    if sp and inp.get("label") == "second-channel":
+        import digital_rf
+        work = common.scratch_dir("c09replay-")
+        top = os.path.join(work, "top")
+        P.run_writer(sp, top)
+        P.run_writer(inp["second_channel_spec"], top, kill_at=inp["second_channel_before_op"], chan="ch1")
+        print("tree with the second channel's writer stopped before its operation %d:" % inp["second_channel_before_op"])
+        for f in P.tree_files(top):
+            if f.startswith("ch1/") or f.endswith("properties.h5"):
+                print("  ", f)
+        try:
+            r = digital_rf.DigitalRFReader(top)
+            print("reader ok, channels", r.get_channels())
+        except Exception as e:  # noqa
+            print("reader raises", repr(e))
+        print("expected:", rp.get("expected"), "| observed then:", rp.get("observed"))
+        return 0
     if not sp or "before_op" not in inp:
         print(rp)
         return 0
